@@ -19,9 +19,11 @@ ThmFrame == \A t \in Trans : LET r == UpdateOp(m, t[1], t[2], t[3], t[4]) IN
 \* replayed as well: a new value that is NOT fresh (equal to a value some addressed entry may already hold); the
 \* operational UpdateOp counts every addressed entry, changed or not -- the frame theorem above needs freshness
 TransE == UpdKeys \X (NewVals \cup {VS("x")}) \X Paths \X CondSets
+\* ... and container values (a map holding a list of records): stored at several nodes they must be independent copies
+TransC == UpdKeys \X {VL(<<VM("n" :> VS("N"))>>), VM("n" :> VL(<<VM("q" :> VS("N")), VS("N")>>))} \X {p \in Paths : Len(p) <= 2} \X {{}}
 TCase(t) == LET r == UpdateOp(m, t[1], t[2], t[3], t[4]) IN
             [key |-> t[1], val |-> t[2], p |-> DotJoin(t[3]), conds |-> SetToSeq(t[4]), post |-> r.n, c |-> r.c]
-Emit == DoEmit => PrintT(ToJson([f |-> "upd", m |-> m, ts |-> SetToSeq({TCase(t) : t \in TransE})]))
+Emit == DoEmit => PrintT(ToJson([f |-> "upd", m |-> m, ts |-> SetToSeq({TCase(t) : t \in TransE \cup TransC})]))
 Spec == GenSpec
 cScalars == {VS("x"), VS("y")}
 cConts == {EmptyMap, EmptyList}
